@@ -148,6 +148,12 @@ def main(tier, seed):
                                         extra_profile=(dict(traits=True, trait_prob=0.3) if (b == "kotlin" and i % 2 == 0) else None))
         if i % 3 == 2:
             native_named_types(prog, random.Random("c07n/%s/%s/%s" % (seed, i, b)), tooltier.profiles.support(b))
+        if i % 3 != 2:
+            # special-method attributes (accessors incl. setters that report success, constructors, operators, iterators ..) change how a
+            # method is *presented*, never the C ABI of the function behind it (seed C07-g)
+            if tooltier.add_special_methods(prog, random.Random("c07s/%s/%s/%s" % (seed, i, b)), b):
+                tooltier.friendly_attrs(prog)
+                emit_rust.assign_abi_names(prog)
         d = toolrun.fresh_dir(toolrun.workdir("c07", "p%d_%s" % (i, b)))
         res = dict(job=job, viol=[], inconc=None, nf=0, ns=0, probes=0, sigs=[])
         # --- the reference must be what rustc compiled: ascription probes in a second copy of the crate
